@@ -307,11 +307,14 @@ impl PointerValue {
 
         self.value.and_then(|ptr| {
             let left = left.unwrap_or_default();
-            let base_addr = ptr as usize + deref_size * left;
+            // bounds come from the user: an inverted range or an offset outside the address
+            // space gives no result
+            let count = right.checked_sub(left)?;
+            let base_addr = (ptr as usize).checked_add(deref_size.checked_mul(left)?)?;
             let raw_data = weak_error!(debugger::read_memory_by_pid(
                 pcx.evcx.ecx.pid_on_focus(),
                 base_addr,
-                deref_size * (right - left)
+                deref_size.checked_mul(count)?
             ))?;
             let raw_data = bytes::Bytes::from(raw_data);
 
